@@ -113,7 +113,7 @@ let run_case (line : string) : string =
         let _ = next () in
         let na = nexti () in
         let ac = List.init na (fun _ -> nexti ()) in
-        mk_sym id cat ac (kind = "p" || kind = "q")) in
+        mk_sym id cat ac (kind = "p" || kind = "q" || kind = "n")) in
       if next () <> "O" then failwith "O expected";
       let recs = Array.of_list (split_on " ; " hout) in
       (* wheels *)
@@ -209,7 +209,9 @@ let run_case (line : string) : string =
           | "C" ->
               let k = nexti () in
               (match mslots.(k) with
-               | [x] -> flag "swo" (params_swo_b x.i_gen)
+               | [x] ->
+                   (* the hypothesis of cse_wf, evaluated when it is cheap (cubic in the number of parameters) *)
+                   if List.length (params_of x.i_gen) <= 8 then flag "swo" (params_swo_b x.i_gen)
                | _ -> ());
               k, lift1 (fun x -> match cse x with Some y -> Some (y, draws) | None -> None) mslots.(k) draws, "-"
           | _ -> failwith ("op " ^ op) in
